@@ -104,6 +104,8 @@ def coq_makefile():
 
 def coq_make(targets, timeout=2400):
     """full .vo build of the given targets; returns (ok, log, failing_file)"""
+    if not targets:
+        return True, "", None
     coq_makefile()
     rc, out = sh(["make", "-j16", "-k"] + targets, cwd=COQ, timeout=timeout)
     failing = None
